@@ -159,6 +159,138 @@ fn hvar_groups(font: &FontRef, n: u32) -> Vec<Vec<u32>> {
     groups.into_values().filter(|g| !g.is_empty()).collect()
 }
 
+/// A corpus font with its HVAR re-encoded (same advance deltas for every glyph, checked below) over `k` ItemVariationData
+/// subtables that the explicit advance mapping, walked in glyph order, visits out of order (`order[g % k]`). No font of
+/// the repository has more than two subtables, so the renumbering of three or more would never be exercised
+/// (seeded change C17-m4). `None` when the font has no usable HVAR or the re-encoding does not reproduce the advances.
+fn derive_hvar_multi(font: &FontRef, n: u32, order: &[u32]) -> Option<Vec<u8>> {
+    use write_fonts::from_obj::ToOwnedTable;
+    use write_fonts::tables::hvar::Hvar;
+    use write_fonts::tables::variations::{DeltaSetIndexMap, ItemVariationData, ItemVariationStore, VariationRegionList};
+    let k = order.len();
+    let hvar = font.hvar().ok()?;
+    let store = hvar.item_variation_store().ok()?;
+    let regions: VariationRegionList = store.variation_region_list().ok()?.to_owned_table();
+    let r = regions.variation_regions.len();
+    if r == 0 || r > 0x7FFF || (n as usize) < 2 * k || n > 0xFFFF {
+        return None;
+    }
+    let data = store.item_variation_data();
+    let map = match hvar.advance_width_mapping() {
+        Some(Ok(m)) => Some(m),
+        Some(Err(_)) => return None,
+        None => None,
+    };
+    let mut rows: Vec<Vec<Vec<i32>>> = vec![vec![]; k];
+    let mut entries: Vec<u32> = vec![];
+    let mut long = false;
+    for g in 0..n {
+        let (o, i) = match &map {
+            Some(m) => {
+                let ix = m.get(g).ok()?;
+                (ix.outer, ix.inner)
+            }
+            None => (0, g as u16),
+        };
+        let mut row = vec![0i32; r];
+        if let Some(Ok(d)) = data.get(o as usize) {
+            if i < d.item_count() {
+                for (ri, v) in d.region_indexes().iter().zip(d.delta_set(i)) {
+                    *row.get_mut(ri.get() as usize)? = v;
+                    long |= i16::try_from(v).is_err();
+                }
+            }
+        }
+        let outer = order[g as usize % k];
+        entries.push((outer << 16) | rows[outer as usize].len() as u32);
+        rows[outer as usize].push(row);
+    }
+    let subtables: Vec<Option<ItemVariationData>> = rows
+        .iter()
+        .map(|rs| {
+            let mut bytes = vec![];
+            for row in rs {
+                for v in row {
+                    if long {
+                        bytes.extend_from_slice(&v.to_be_bytes());
+                    } else {
+                        bytes.extend_from_slice(&(*v as i16).to_be_bytes());
+                    }
+                }
+            }
+            let wdc = if long { 0x8000 | r as u16 } else { r as u16 };
+            Some(ItemVariationData::new(rs.len() as u16, wdc, (0..r as u16).collect(), bytes))
+        })
+        .collect();
+    let new_hvar = Hvar::new(ItemVariationStore::new(regions, subtables), Some(DeltaSetIndexMap::from_iter(entries)), None, None);
+    let mut b = write_fonts::FontBuilder::new();
+    b.add_table(&new_hvar).ok()?;
+    b.copy_missing_tables(font.clone());
+    let bytes = b.build();
+    // the re-encoding must not change any advance (otherwise the derived font is simply not used)
+    let derived = FontRef::new(&bytes).ok()?;
+    let naxes = font.axes().len();
+    let mut locs: Vec<Vec<F2Dot14>> = vec![vec![F2Dot14::from_bits(16384); naxes], vec![F2Dot14::from_bits(-16384); naxes], vec![F2Dot14::from_bits(5000); naxes]];
+    for a in 0..naxes.min(4) {
+        let mut l = vec![F2Dot14::ZERO; naxes];
+        l[a] = F2Dot14::from_bits(16384);
+        locs.push(l);
+    }
+    for l in &locs {
+        let loc = LocationRef::new(l);
+        let (m0, m1) = (font.glyph_metrics(Size::unscaled(), loc), derived.glyph_metrics(Size::unscaled(), loc));
+        for g in 0..n {
+            if m0.advance_width(GlyphId::new(g)) != m1.advance_width(GlyphId::new(g)) {
+                eprintln!("[C17] derived HVAR font dropped: advance of glyph {g} not reproduced");
+                return None;
+            }
+        }
+    }
+    Some(bytes)
+}
+
+fn info_for(name: String, file: &str, data: &'static [u8], index: u32) -> Option<FontInfo> {
+    let font = FontRef::from_index(data, index).ok()?;
+    let required = font.glyf().is_ok()
+        && font.loca(None).is_ok()
+        && font.cmap().is_ok()
+        && font.maxp().is_ok()
+        && font.head().is_ok()
+        && font.hhea().is_ok()
+        && font.hmtx().is_ok();
+    if !required {
+        return None;
+    }
+    let n = font.maxp().map(|m| m.num_glyphs() as u32).unwrap_or(0);
+    if n == 0 {
+        return None;
+    }
+    let (comps, is_comp, glen) = parse_components(&font)?;
+    let composites: Vec<u32> = (0..n).filter(|g| is_comp[*g as usize]).collect();
+    let naxes = font.axes().len();
+    let var_glyphs: Vec<u32> = match font.gvar() {
+        Ok(gvar) if naxes > 0 => (0..n).filter(|g| matches!(gvar.data_for_gid(GlyphId::new(*g)), Ok(Some(d)) if d.len() > 4)).collect(),
+        _ => vec![],
+    };
+    Some(FontInfo {
+        kf_cmap: KF_CMAP_FONTS.contains(&file),
+        name,
+        data,
+        index,
+        n,
+        maps: charmap_mappings(&font),
+        comps,
+        glen,
+        composites,
+        var_glyphs,
+        hvar_groups: hvar_groups(&font, n),
+        naxes,
+    })
+}
+
+/// visiting orders of the derived multi-subtable HVAR fonts (name suffix, outer index of glyph `g` = order[g % len])
+const HVAR_ORDERS: [(&str, &[u32]); 2] = [("+hvar3", &[0, 2, 1]), ("+hvar4", &[3, 1, 0, 2])];
+
 fn load_fonts() -> Vec<FontInfo> {
     let mut out = vec![];
     for cf in corpus::all_fonts() {
@@ -170,45 +302,22 @@ fn load_fonts() -> Vec<FontInfo> {
         };
         let multi = members.len() > 1;
         for index in members {
-            let Ok(font) = FontRef::from_index(data, index) else { continue };
-            let required = font.glyf().is_ok()
-                && font.loca(None).is_ok()
-                && font.cmap().is_ok()
-                && font.maxp().is_ok()
-                && font.head().is_ok()
-                && font.hhea().is_ok()
-                && font.hmtx().is_ok();
-            if !required {
-                continue;
-            }
-            let n = font.maxp().map(|m| m.num_glyphs() as u32).unwrap_or(0);
-            if n == 0 {
-                continue;
-            }
-            let Some((comps, is_comp, glen)) = parse_components(&font) else { continue };
-            let composites: Vec<u32> = (0..n).filter(|g| is_comp[*g as usize]).collect();
-            let naxes = font.axes().len();
-            let var_glyphs: Vec<u32> = match font.gvar() {
-                Ok(gvar) if naxes > 0 => {
-                    (0..n).filter(|g| matches!(gvar.data_for_gid(GlyphId::new(*g)), Ok(Some(d)) if d.len() > 4)).collect()
-                }
-                _ => vec![],
-            };
             let name = if multi { format!("{}#{}", cf.name, index) } else { cf.name.clone() };
-            out.push(FontInfo {
-                kf_cmap: KF_CMAP_FONTS.contains(&cf.name.as_str()),
-                name,
-                data,
-                index,
-                n,
-                maps: charmap_mappings(&font),
-                comps,
-                glen,
-                composites,
-                var_glyphs,
-                hvar_groups: hvar_groups(&font, n),
-                naxes,
-            });
+            let Some(info) = info_for(name.clone(), &cf.name, data, index) else { continue };
+            let derive = info.naxes > 0 && !info.kf_cmap && info.hvar_groups.iter().any(|g| !g.is_empty());
+            let n = info.n;
+            out.push(info);
+            if derive {
+                let Ok(font) = FontRef::from_index(data, index) else { continue };
+                for (suffix, order) in HVAR_ORDERS {
+                    if let Some(bytes) = derive_hvar_multi(&font, n, order) {
+                        let d: &'static [u8] = Box::leak(bytes.into_boxed_slice());
+                        if let Some(di) = info_for(format!("{name}{suffix}"), &cf.name, d, 0) {
+                            out.push(di);
+                        }
+                    }
+                }
+            }
         }
     }
     out
